@@ -94,7 +94,8 @@ PROPS = {
         "level": "all strings up to length 6 (quick) / 7 (thorough) - shorter where the alphabet is large, see bounds - over one representative "
                  "of every character class each of the 13 token recognisers distinguishes, for parseProgramData over a merged alphabet and "
                  "for unit detection (well-formedness, length, data extent, parameter count, termination); each string in exact-size buffers "
-                 "at two offsets and in a buffer followed by tempting continuation bytes; tokens pre-filled with garbage; long generated tokens",
+                 "at two offsets and in a buffer followed by tempting continuation bytes; tokens pre-filled with garbage; every byte value 0..255 at every "
+                 "position of every string up to length 3 (quick) / 4 (thorough) over the same alphabets; long generated tokens",
         "level_note": "suffix program data is checked one-sidedly against the strict 488.2 syntax (the source documents a relaxed one); an incomplete block at the end of input swallows the rest (documented) and is accepted as such",
         "design_ref": "DESIGN.md section 4, C13",
         "runs": simple("c13"),
@@ -216,11 +217,13 @@ PROPS = {
         "technique": "reference-model comparison: independent definite-length block encoder (shift-based byte order) and an accounting model for streamed blocks, over an enumerated grid and rapidcheck-generated result sequences",
         "level": "all ten element types x lengths 0..300 x NORMAL/SWAPPED, blocks 0..300 bytes, header-only calls for every power of ten up to "
                  "10^8 and 999999999, every split of a streamed block of <= 12 bytes into <= 4 data calls with an over-length attempt at "
-                 "every point and items before/after, plus random sequences of arrays, blocks, streamed blocks and scalars; byte-identical output, exactly one -310 per refused data call",
-        "level_note": "only a little-endian host can be executed; the response terminator is not asserted here (C06); a block header is always followed by at least one data call",
+                 "every point and items before/after, blocks left at every fill level by one unit of a compound message and continued without a header by the next unit(s), "
+                 "plus random sequences of arrays, blocks, streamed blocks and scalars over 1..3 units of one message; byte-identical output, exactly one -310 per refused data call",
+        "level_note": "only a little-endian host can be executed; the response terminator is not asserted here (C06); a block header is always followed by at least one data call; "
+                      "left open: an empty data call where no block was announced, and the separator before an item that follows an incomplete block in a later unit",
         "design_ref": "DESIGN.md section 4, C17",
         "runs": simple("c17"),
-        "rule": "case = sequence of result calls of one query handler; grid cases distinct by construction, random by hash; non-trivial = a "
+        "rule": "case = sequence of result calls of one query handler, or of the handlers of the 2..3 units of one compound message; grid cases distinct by construction, random by hash; non-trivial = a "
                 "block/array of >= 10 bytes (multi-digit header), a streamed block, or an over-length attempt",
         "assumptions": COMMON_ASSUME + ["little-endian host only"],
     },
